@@ -27,7 +27,7 @@ claim('C07', 'Coq proof (nested induction over the value universe, uniqueness of
       'Theorem: for ANY hash function and digest order the chunk sequence fed to the hash is invariant under permuting set/frozenset/dict '
       'iteration order at any depth and under array layout (Props/C07.v); the executable stream is proved equal to that sequence when children '
       'are listed in digest order.  Tie: every chunk the real code feeds to sha1 is recorded in separate interpreters with different '
-      'PYTHONHASHSEED and compared with the model stream in coqc.  Loading: generated jugfiles are loaded with the real jug.init ten ways per interpreter (relative / absolute / ./ / redundant components / other working directories) and a generated project (CompoundTask(Generator), tasklets, timed_path and cached_glob on relative paths, CustomHash / NoHash / NoLoad, TaskGenerator mappers in map / mapreduce / currymap, identity) is snapshotted before anything ran, with only the tasks inside the compounds stored, after everything ran, after cleanup, and after the directory was renamed / copied / reached through a symlink, by interpreters differing in PYTHONHASHSEED, environment variables, umask, argv, pid: Task.hash(), __jug_hash__() and hash_one() of every jugfile object must agree with each other and with the first snapshot.  Identifier-independence of what was hashed before in the interpreter is checked against a pristine forked child; known finding D24 (subclass instances pickled whole) is tolerated only under its chunk-tree classifier.',
+      'PYTHONHASHSEED and compared with the model stream in coqc.  Loading: generated jugfiles are loaded with the real jug.init ten ways per interpreter (relative / absolute / ./ / redundant components / other working directories) and a generated project (CompoundTask(Generator), tasklets, timed_path and cached_glob on relative paths, CustomHash / NoHash / NoLoad, TaskGenerator mappers in map / mapreduce / currymap, identity) is snapshotted before anything ran, with only the tasks inside the compounds stored, after everything ran, after cleanup, and after the directory was renamed / copied / reached through a symlink, by interpreters differing in PYTHONHASHSEED, environment variables, umask, argv, pid: Task.hash(), __jug_hash__() and hash_one() of every jugfile object must agree with each other and with the first snapshot.  Identifier-independence of what was hashed before in the interpreter is checked against a pristine forked child; known finding D24 (subclass instances pickled whole) is tolerated only under its chunk-tree classifier; generations: long-lived interpreters that load, free and re-load jugfile code (same module name, task generators coming and going, barriers) must compute the identifiers a fresh interpreter computes for the same generation.',
       'Kernel + vm_compute; SHA-1 and pickle outside the model (digests symbolic; dict keys with distinct digests is a premise); '
       'harness: value generator/realiser, recorder, interning; the real hostname and the clock cannot be varied by the check (only $HOSTNAME and the moment of the run).',
       'DESIGN.md sec. 3 C07')
@@ -43,7 +43,7 @@ claim('C08', 'Coq refutation witness + Coq proof that the length-delimited chunk
       '(one buffer through ~all plain / structured / sub-array / byte-order dtypes and shapes, tasklet chains to depth 3 incl. '
       'return_tuple / iteratetask and their consumers, all six container kinds, NoHash / CustomHash wrappers - exempt by design) and '
       'the pairs the property names, buckets them by identifier, and accepts a collision of two different invocations only if Coq '
-      'evaluates: model stream equal AND delimited stream different; anything else is a violation with the colliding pair as replay.',
+      'evaluates: model stream equal AND delimited stream different; anything else is a violation with the colliding pair as replay; family "same names in two modules": functions, TaskGenerators, mappers / reducers of map / currymap / mapreduce / reduce, CompoundTask builders and Tasklet functions with equal __qualname__ in two generated modules have pairwise different identifiers (model: stripped mapper = hash_one(generator), CompoundTask = Task(builder, args)).',
       'Kernel + vm_compute; A1 (SHA-1 injective) and A2 (concatenated chunk bytes uniquely decodable) are explicit premises of the '
       'digest-level theorems and shown jointly satisfiable (C08_nonvacuous); the token-level theorems need neither.  The theorems speak of '
       'values whose set/dict children are listed in digest order (how the check lists them; the sort-inclusive delimited sequence is not '
@@ -63,7 +63,7 @@ claim('C10', 'Coq proof (set equations of cleanup per mode and backend for ANY s
       'Theorems (Props/C10.v): for every store content (active and foreign results, packed/unpacked/both, held and failed locks, temp files) '
       'and every active set: default and --keep-locks leave exactly results /\\ active; --keep-locks leaves all locks; --locks-only removes all '
       'locks and nothing else; --failed-only removes exactly the failed locks; on file (packed or not), dict and redis; link to the execution protocol (Proofs/ExecCleanupFacts.v): on any store representing a protocol state `--locks-only` / `--failed-only` produce a store representing the state after the protocol\'s ERemoveLocks / EReleaseFailed events (recovery of C13, retry of C11), and every mode given the jugfile\'s tasks leaves exactly the results the workers stored.  Tie: generated '
-      'store contents x 4 modes x 4 backends through the real CleanupCommand; list()/listlocks()/failed marks compared with the model; jugfiles that create tasks indirectly (CachedFunction, mapreduce.map, iteratetask, barrier) with the active set = what the generator knows the jugfile defines (a difference to task.alltasks is a violation); another process storing / packing / removing between the command\'s open and its cleanup (redis: full equations + model; file stores: no needed result lost, nothing resurrected - the stale in-memory pack of file_store is recorded in DESIGN.md Appendix C).',
+      'store contents x 4 modes x 4 backends through the real CleanupCommand; list()/listlocks()/failed marks compared with the model; jugfiles that create tasks indirectly (CachedFunction, mapreduce.map, iteratetask, barrier) with the active set = what the generator knows the jugfile defines (a difference to task.alltasks is a violation); before the command a random subset of lock files (failed and held) of the file stores is read (atime moved, mtime untouched) and which locks are failed is taken from the mtime marker on disk, not from is_failed() - both must agree; another process storing / packing / removing between the command\'s open and its cleanup (redis: full equations + model; file stores: no needed result lost, nothing resurrected - the stale in-memory pack of file_store is recorded in DESIGN.md Appendix C).',
       'Kernel + vm_compute; model of os.walk filtering/pack pruning hand-written and tied by differential cases; fake redis; '
       'no concurrent modification during the command.',
       'DESIGN.md sec. 3 C10')
@@ -178,12 +178,12 @@ claim('C11', 'Coq proof (doomed tasks are never stored and their dependents neve
       'Theorems (Props/C11.v): after a task function raised nothing is ever stored for it or for any task depending on it and no dependent is ever started, in '
       'any continuation; with --keep-going, once every worker has left, exactly the tasks not depending on a failed one are stored; the exit status of a worker not '
       'asked to stop is non-zero iff a task function raised in it; the lock of the failed task is released, or with --keep-failed left marked failed, and a failed '
-      'lock stays failed and cannot be acquired until failed locks are cleaned up; the failed marker is the `fail` of the atomic lock specification that C04 proves of every backend (Proofs/ExecLockFacts.v).  ' + _EXEC_TIE + '  Raising functions x keep_going x keep_failed, real cleanup --failed-only; the real command line (`jug execute` subprocesses on a file store and on dict_store:FILE): a task raising any of 10 exception classes (incl. TypeError and subclasses) x keep_going x keep_failed x barrier: exit status non-zero iff the process saw a failure, store, locks.', _EXEC_NOTE, 'DESIGN.md sec. 3 C11')
+      'lock stays failed and cannot be acquired until failed locks are cleaned up; the failed marker is the `fail` of the atomic lock specification that C04 proves of every backend (Proofs/ExecLockFacts.v).  ' + _EXEC_TIE + '  Raising functions x keep_going x keep_failed, real cleanup --failed-only; the real command line (`jug execute` subprocesses on a file store and on dict_store:FILE): a task raising any of 10 exception classes (incl. TypeError and subclasses) x keep_going x keep_failed x barrier: exit status non-zero iff the process saw a failure, store, locks; the real-CLI section also covers failures next to a bvalue()/barrier() that can still open (multi-pass reload loop).', _EXEC_NOTE, 'DESIGN.md sec. 3 C11')
 claim('C12', 'Coq proof (a stop request is enabled in every protocol state; a stopped worker never dumps, starts or locks again and can only release its lock; exits hold no lock; restart + completeness) + trace validation of real interrupted runs in coqc',
       'Theorems (Props/C12.v): a stop request can arrive while choosing, waiting, holding a lock, inside a task function, between function and dump, after the dump, '
       'and changes no result and no lock; from then on the worker stores nothing, starts nothing, locks nothing - all it can do is release the lock it holds; a worker '
       'that has left holds no lock; once nobody holds a lock, later workers complete the computation with the sequential values.  ' + _EXEC_TIE +
-      '  SystemExit/KeyboardInterrupt raised at every scheduling point of small programs, the real exit_checks hooks; a stop request arriving inside store.dump(); real SIGTERM / SIGINT (single and repeated) to real `jug execute` processes on file, file_keepalive and dict_store:FILE stores, inside a task function (quick) and in the wait loop (thorough); end state read by a fresh process.',
+      '  SystemExit/KeyboardInterrupt raised at every scheduling point of small programs, the real exit_checks hooks; a stop request arriving inside store.dump(); real SIGTERM / SIGINT (single and repeated) to real `jug execute` processes on file, file_keepalive and dict_store:FILE stores, inside a task function (quick) and in the wait loop (thorough), incl. stop requests delivered to the worker\'s whole process group on file_keepalive (keep-alive monitor dead before the worker unwinds); end state read by a fresh process.',
       _EXEC_NOTE + '  Signal delivery inside lock.get() itself is outside the model (and outside the property).', 'DESIGN.md sec. 3 C12')
 claim('C13', 'Coq proof (a crash changes nothing but the crashed worker; dead workers are silent; results are write-once and sound; stale-lock removal; restart + completeness) + trace validation of real crashed-and-recovered runs in coqc',
       'Theorems (Props/C13.v): a crash at any point leaves every result, every lock and every other worker as they were (residue: the locks it held); the dead worker '
